@@ -24,6 +24,8 @@ def std(pkg, qprop, tprop, fuzz=None, grid_shards_thorough=1, level="exploration
 
 
 PROPS = {
+    "C14": std("c14", 5000, 50000, fuzz=30),
+    "C13": std("c13", 5000, 50000, fuzz=30),
     "C11": std("c11", 20000, 200000, fuzz=30),
     "C04": std("c04", 6000, 55000, fuzz=45, grid_shards_thorough=16),
     "C10": std("c10", 20000, 200000),
